@@ -380,15 +380,23 @@ class SymInt:
     __rmul__ = __mul__
 
     def __lt__(self, o):
+        if not isinstance(o, (int, SymInt)):
+            return NotImplemented  # Python then raises TypeError, as for a real int
         return sb(self.e < SymInt.ze(o))
 
     def __le__(self, o):
+        if not isinstance(o, (int, SymInt)):
+            return NotImplemented  # Python then raises TypeError, as for a real int
         return sb(self.e <= SymInt.ze(o))
 
     def __gt__(self, o):
+        if not isinstance(o, (int, SymInt)):
+            return NotImplemented  # Python then raises TypeError, as for a real int
         return sb(self.e > SymInt.ze(o))
 
     def __ge__(self, o):
+        if not isinstance(o, (int, SymInt)):
+            return NotImplemented  # Python then raises TypeError, as for a real int
         return sb(self.e >= SymInt.ze(o))
 
     def __eq__(self, o):
